@@ -121,6 +121,10 @@ theorem call_forwards : callPlanOk callPlans = true := by decide
 is called once, inside it, before the `return_acs` return -/
 theorem seed_param_ok : seedParamOk seedParams = true := by decide
 
+/-- the call sites outside `subsample.py` request mask and ACS with the same `shape` and `seed`; `integerize_seed`
+hands int seeds on unchanged -/
+theorem call_site_plumbing_ok : plumbingOk callSitePlumbing = true := by decide
+
 /-- the machine the translated facts select is the one the property theorems (`Props/C06.lean`, section histories)
 are about -/
 theorem code_machine {σ Seed : Type} :
